@@ -176,7 +176,16 @@ def extract():
     rs = _parse("tempest/steps/resample.py")
     run = _find_func(rs, "Resampler", "run")
     sites = _subscript_sites(run)
-    idx_names = sorted({i for b, i, st, _ in sites if i.startswith("idx")})
+    # the index vector(s): whatever name receives the result of the resampling call (np.random.choice / systematic_resample)
+    idx_names = set()
+    for node in ast.walk(run):
+        if isinstance(node, ast.Assign) and len(node.targets) == 1 and isinstance(node.value, ast.Call):
+            fn = _name(node.value.func) or ""
+            if fn.split(".")[-1] in ("choice", "systematic_resample") and _name(node.targets[0]):
+                idx_names.add(_name(node.targets[0]))
+    if not idx_names:
+        raise Unavailable("Resampler.run: no index vector assigned from np.random.choice / systematic_resample")
+    idx_names = sorted(idx_names)
     t["resampleIndexNames"] = idx_names
     t["resampleGather"] = sorted({b for b, i, st, _ in sites if i in idx_names and not st})
     t["resampleWrites"] = sorted(set(_state_writes(run)))
